@@ -283,11 +283,11 @@ type vStream struct {
 	Flush    int32  `json:"flush"`
 	Gen      string `json:"gen"` // random | zeros | http | tls | ssh | static:<id> (when From == "")
 	Len      int    `json:"len"`
-	Flip     int    `json:"flip"`  // bit offset to flip (-1 none)
+	Flip     int    `json:"flip"`     // bit offset to flip (-1 none)
 	FlipEnd  int    `json:"flip_end"` // bit offset from the end of the first write (-1 none)
-	Trunc    int    `json:"trunc"` // cut the stream after this many bytes and close (-1 none)
-	Early    int    `json:"early"` // bytes of application data sent right behind the flight
-	Late     int    `json:"late"`  // bytes of application data sent after a pause
+	Trunc    int    `json:"trunc"`    // cut the stream after this many bytes and close (-1 none)
+	Early    int    `json:"early"`    // bytes of application data sent right behind the flight
+	Late     int    `json:"late"`     // bytes of application data sent after a pause
 }
 
 type vCase struct {
@@ -545,7 +545,13 @@ func (w *vWorld) runCase(cs *vCase) map[string]any {
 	}
 
 	fin := map[string]any{"matched": matched, "flight_len": flightLen, "c2s_written": d.c2sWritten, "client_err": clientErr, "to_peer": d.s2cTotal,
-		"unread": len(d.pending) + func() int { n := 0; for _, s := range d.segs { n += len(s) }; return n }(), "deadlines": d.deadlines}
+		"unread": len(d.pending) + func() int {
+			n := 0
+			for _, s := range d.segs {
+				n += len(s)
+			}
+			return n
+		}(), "deadlines": d.deadlines}
 	if len(want) > 0 {
 		tag := want
 		if len(tag) > 16 {
